@@ -10,9 +10,8 @@ Lemma constructors_invariant_ok : forall n d r,
   (forall s, 0 <= d -> from_parts_const_spec s n d = Ok r -> Inv r) /\
   (parse_spec n d = Ok r -> Inv r).
 Proof.
-  intros n d r. repeat split.
-  - eapply from_parts_spec_Inv; eassumption.
-  - apply from_parts_spec_Q; assumption.
+  intros n d r. split; [|split; [|split]].
+  - intros Hd H. split; [eapply from_parts_spec_Inv; eassumption | apply from_parts_spec_Q; assumption].
   - apply from_parts_signed_spec_Inv.
   - intros s. apply from_parts_const_spec_Inv.
   - apply parse_spec_Inv.
@@ -30,9 +29,8 @@ Lemma pow_ok : forall x e, Inv x -> 0 <= e ->
   pow_asis x e = pow_spec x e /\ Inv (pow_spec x e) /\
   pow_spec x 0 = (1, 1) /\ Ok (pow_spec x (Z.succ e)) = bin_spec OMul (pow_spec x e) x.
 Proof.
-  intros x e Hx He. pose proof (Inv_RInv x Hx) as Hr. repeat split.
+  intros x e Hx He. pose proof (Inv_RInv x Hx) as Hr. split; [|split; [|split]].
   - apply pow_asis_spec; assumption.
-  - apply pow_spec_Inv; assumption.
   - apply pow_spec_Inv; assumption.
   - apply pow_spec_0; assumption.
   - apply pow_spec_succ; assumption.
@@ -45,10 +43,10 @@ Lemma split_round_ok : forall x, Inv x ->
   split_asis x = split_spec x /\ Inv (snd (split_spec x)) /\ trunc_asis x = trunc_spec x /\
   floor_asis x = floor_spec x /\ ceil_asis x = ceil_spec x /\ round_asis x = round_spec x.
 Proof.
-  intros x Hx. pose proof (Inv_RInv x Hx) as Hr. repeat split.
+  intros x Hx. pose proof (Inv_RInv x Hx) as Hr. split; [|split; [|split; [|split; [|split]]]].
   - apply split_asis_spec; exact Hx.
   - apply split_spec_Inv; exact Hr.
-  - apply split_spec_Inv; exact Hr.
+  - apply trunc_asis_spec; exact Hr.
   - apply floor_asis_spec; exact Hr.
   - apply ceil_asis_spec; exact Hr.
   - apply round_asis_spec; exact Hr.
@@ -59,7 +57,7 @@ Lemma relaxed_constructors_ok : forall n d,
   res_veq (xfrom_parts_signed_asis n d) (from_parts_signed_spec n d) /\
   (forall s, 0 <= n -> 0 <= d -> res_veq (xfrom_parts_const_asis s n d) (from_parts_const_spec s n d)).
 Proof.
-  intros n d. repeat split.
+  intros n d. split; [|split].
   - apply xfrom_parts_asis_spec.
   - apply xfrom_parts_signed_asis_spec.
   - intros s. apply xfrom_parts_const_asis_spec.
